@@ -33,7 +33,7 @@ ASSUMPTIONS = [
     "objective / non-linear constraint transforms are user classes: interface contract from_optimizer(to_optimizer(v)) = v with positive element-wise scale (not under contract)",
     "floats as reals: 'equal' means equal up to rounding in the statement",
     "re-validating an already transformed configuration with the same transform context is outside C11/C18 (the dump is in optimizer coordinates)",
-    "bounded in shape only (variables <= 2, linear rows <= 2)",
+    "bounded in shape only (variables <= 2, linear rows <= 2; 3 and 3 in the thorough tier)",
 ]
 
 
@@ -265,6 +265,6 @@ MANIFEST = {
             "round trips, bound and linear-constraint equivalence (incl. equation scaling, every finite/infinite bound kind), request invariance for every boundary and perturbation type, "
             "and equality of back-transformed differences/violations with the untransformed ones; discharged by z3. Objective/constraint transforms are user classes (interface contract), "
             "and the end-to-end 'same behaviour with and without transforms' follows by composition with C01-C10, which is why the level is 'other' rather than a single proof.",
-    "note": "variables <= 2, linear rows <= 2; user objective/constraint transforms assumed to satisfy their round-trip contract; floats as reals",
+    "note": "variables <= 2 (3), linear rows <= 2 (3); user objective/constraint transforms assumed to satisfy their round-trip contract; floats as reals",
     "technique": "contract-based deductive verification: lemmas over the contracts of the real transform code by symbolic execution + z3/cvc5; bounded run-time contract checking as stand-in",
 }
